@@ -343,6 +343,10 @@ def run_shard(shard, tier):
                             # excluded by the statement: non-string keys at the top level of a data class
                             acc.extra["out_of_scope_nonstring_toplevel_keys"] += 1
                             continue
+                        if site == "outside-utype" and isinstance(e, TypeError) and "make_init.<locals>" in str(e):
+                            # Python refused to bind the call of the __init__ that utype generated (no utype frame runs
+                            # then): the data decided that, so it is an escape like any other
+                            site = "binding-of-generated-init"
                         if site == "outside-utype":
                             raise RuntimeError(f"harness error: exception raised outside utype for {S.type_expr(sp)} "
                                                f"form={form} input={vx}: {type(e).__name__}: {e}")
